@@ -62,6 +62,15 @@ Theorem C04_block_product : forall (R : StarRing) (A B C D E G : linop R), wf A 
     = fwd (vstack (lsum (comp A E) (comp B G)) (lsum (comp C E) (comp D G))) x i.
 Proof. exact block_column_product. Qed.
 Print Assumptions C04_block_product.
+(* the full 2 x 2 matrix product: [[A, B], [C, D]] [[E, F], [G, H]] = [[A E + B G, A F + B H], [C E + D G, C F + D H]] on every input *)
+Theorem C04_block_product_2x2 : forall (R : StarRing) (A B C D E F G H : linop R), wf A -> wf B -> wf C -> wf D ->
+  dom A = ran E -> dom C = ran E -> dom B = ran G -> dom D = ran G -> dom E = dom G -> ran A = ran B -> ran C = ran D ->
+  forall x i, (i < ran A + ran C)%nat ->
+    fwd (comp (vstack (hstack A B) (hstack C D)) (vstack (hstack E F) (hstack G H))) x i
+    = fwd (vstack (hstack (lsum (comp A E) (comp B G)) (lsum (comp A F) (comp B H)))
+                  (hstack (lsum (comp C E) (comp D G)) (lsum (comp C F) (comp D H)))) x i.
+Proof. exact block_product_2x2. Qed.
+Print Assumptions C04_block_product_2x2.
 (* LinearOperatorMatrix.from_diagonal: the block-diagonal operator equals the matrix with zero operators off the diagonal *)
 Theorem C04_block_diagonal : forall (R : StarRing) (A B : linop R),
   opeq (bdiag A B) (vstack (hstack A (zeroop (R:=R) (dom B) (ran A))) (hstack (zeroop (R:=R) (dom A) (ran B)) B)).
